@@ -263,6 +263,12 @@ APPEND["C19"] = (" CodecSSE.tla is a state machine of a byte stream that breaks 
                  "specification's reader satisfies ScDelivered / ScNoGaps on every state and is chunk-independent; the code-shaped reader breaks them only in its two lead "
                  "classes; a witness reader must break them. Every (stream, cut, end) is run at every byte offset with three chunkings of the Reads on the real scanEvents, "
                  "streamableClientConn.processStream and ioConn.Read, and is judged by CodecMon.")
+APPEND["C13"] = (" Transport dimension: KeepAlive.tla Part 1b tabulates 46 concrete ways a ping is answered or fails over a stream connection, the streamable HTTP "
+                 "client, the streamable HTTP server pinging its client and the legacy SSE client, and what each is for the property (miss tolerated up to the threshold vs. "
+                 "outcome d = connection dead / session terminated, may end at once), with grounds (property text / SDK doc / MCP spec / none = permissive); KeepAliveTr.tla "
+                 "runs the same loop on all consumable class scripts <= threshold+1 (2 598 cases quick, 32 826 thorough, 307k states) and the harness plays them on real "
+                 "sessions over the real StreamableClientTransport / SSEClientTransport (scripted RoundTripper), a real Server behind StreamableHTTPHandler.ServeHTTP and "
+                 "scripted stream connections; KeepAliveMon takes every ping's verdict from the model's table.")
 REPLACE = {
     "C14": ("BearerDefs.tla holds the value classes, the code-shaped Expected and the declarative property Holds (iff admission, status by cause, challenge content, "
             "same token info); Bearer.tla holds the case space of 92 354 cases: the core product of 81 600 (header shapes x verifier outcomes incl. error-with-info x "
